@@ -44,6 +44,11 @@ type c33Case struct {
 	// Lockstep: the goroutines of one process meet at a barrier before EVERY
 	// upload round, not only before the first, so each round starts G uploads at once
 	Lockstep bool `json:"lockstep"`
+	// Handles is the number of separately constructed storage handles in the
+	// process (all on the same bucket and prefix); goroutine g uploads through
+	// handle g mod Handles. Several handles are what several servers in one
+	// process, or a re-created backend, amount to.
+	Handles int `json:"handles,omitempty"`
 }
 
 const bucket = "verif-bucket"
@@ -134,10 +139,31 @@ var (
 	backends  = map[string]vgirpc.ExternalStorage{}
 )
 
+// handlesFor returns n separately constructed handles for the endpoint.
+func handlesFor(kind, endpoint string, n int) ([]vgirpc.ExternalStorage, error) {
+	if n < 1 {
+		n = 1
+	}
+	out := make([]vgirpc.ExternalStorage, n)
+	for i := range out {
+		b, err := backendForIdx(kind, endpoint, i)
+		if err != nil {
+			return nil, err
+		}
+		out[i] = b
+	}
+	return out, nil
+}
+
 func backendFor(kind, endpoint string) (vgirpc.ExternalStorage, error) {
+	return backendForIdx(kind, endpoint, 0)
+}
+
+func backendForIdx(kind, endpoint string, idx int) (vgirpc.ExternalStorage, error) {
 	backendMu.Lock()
 	defer backendMu.Unlock()
-	if b, ok := backends[kind+"|"+endpoint]; ok {
+	endpointKey := fmt.Sprintf("%s#%d", endpoint, idx)
+	if b, ok := backends[kind+"|"+endpointKey]; ok {
 		return b, nil
 	}
 	var b vgirpc.ExternalStorage
@@ -159,7 +185,7 @@ func backendFor(kind, endpoint string) (vgirpc.ExternalStorage, error) {
 	if err != nil {
 		return nil, err
 	}
-	backends[kind+"|"+endpoint] = b
+	backends[kind+"|"+endpointKey] = b
 	return b, nil
 }
 
@@ -167,7 +193,8 @@ var c33Schema = arrow.NewSchema([]arrow.Field{{Name: "value", Type: arrow.Primit
 
 // uploadStorm releases G goroutines at once (and not before startAt), each
 // doing U uploads; returns the number of Upload calls that reported an error.
-func uploadStorm(st vgirpc.ExternalStorage, proc, G, U int, startAt time.Time, lockstep bool) (errs int, firstErr string) {
+func uploadStorm(st vgirpc.ExternalStorage, proc, G, U int, startAt time.Time, lockstep bool, more ...vgirpc.ExternalStorage) (errs int, firstErr string) {
+	handles := append([]vgirpc.ExternalStorage{st}, more...)
 	var wg sync.WaitGroup
 	var mu sync.Mutex
 	barrier := make(chan struct{})
@@ -200,7 +227,7 @@ func uploadStorm(st vgirpc.ExternalStorage, proc, G, U int, startAt time.Time, l
 					arrived[u].Done()
 					<-rounds[u]
 				}
-				if _, err := st.Upload(payloads[u], c33Schema, ""); err != nil {
+				if _, err := handles[g%len(handles)].Upload(payloads[u], c33Schema, ""); err != nil {
 					mu.Lock()
 					errs++
 					if firstErr == "" {
@@ -255,6 +282,7 @@ func genC33(t *rapid.T) c33Case {
 	c := c33Case{Procs: 1}
 	c.Backend = []string{"s3", "gcs"}[rapid.IntRange(0, 1).Draw(t, "backend")]
 	c.Lockstep = rapid.IntRange(0, 2).Draw(t, "lockstep") != 0
+	c.Handles = []int{1, 1, 2, 3}[rapid.IntRange(0, 3).Draw(t, "handles")]
 	c.G = []int{2, 4, 8, 16, 32, 64, 128, 256}[rapid.IntRange(0, 7).Draw(t, "goroutines")]
 	maxU := 2048 / c.G
 	if c.Backend == "gcs" {
@@ -289,13 +317,17 @@ func runC33(c c33Case) (out lib.Outcome) {
 	}
 	errs, firstErr := 0, ""
 	if c.Procs <= 1 {
-		st, err := backendFor(c.Backend, f.srv.URL)
+		hs, err := handlesFor(c.Backend, f.srv.URL, c.Handles)
+		var st vgirpc.ExternalStorage
+		if err == nil {
+			st = hs[0]
+		}
 		if err != nil {
 			out.Skipped = true
 			out.Label("inconclusive:backend-construction-failed")
 			return
 		}
-		errs, firstErr = uploadStorm(st, 0, c.G, c.U, time.Now(), c.Lockstep)
+		errs, firstErr = uploadStorm(st, 0, c.G, c.U, time.Now(), c.Lockstep, hs[1:]...)
 	} else {
 		startAt := time.Now().Add(1500 * time.Millisecond)
 		var cmds []*exec.Cmd
